@@ -36,6 +36,9 @@ Init == /\ heap \in ObjChoices /\ orig = heap /\ disp = [i \in DOMAIN heap |-> Z
 
 Step(e) == hist' = Append(hist, e)
 
+\* a new object enters the session (used by the trace specification; the generating configurations start from ObjChoices)
+Create(o)  == /\ heap' = Append(heap, o) /\ orig' = Append(orig, o) /\ disp' = Append(disp, Zero3) /\ ncopy' = Append(ncopy, 0)
+              /\ UNCHANGED args /\ Step([act |-> "Create", id |-> Len(heap) + 1])
 Move(i, v) == /\ heap' = [heap EXCEPT ![i] = Translate(@, v)]
               /\ disp' = [disp EXCEPT ![i] = Add(@, v)]
               /\ UNCHANGED <<orig, args, ncopy>>
